@@ -23,6 +23,10 @@ fn c16_opreturn_printed_lines() {
         let tx = TxSpec::new(vec![TxIn::new([k; 32], form as u32, vec![0x51])], vec![TxOut::new(1, p2pkh_script(&[k; 20])), TxOut::new(0, s.clone()), TxOut::new(2, vec![0x51]), TxOut::new(if k % 2 == 0 { 100_000 } else { 1 }, s)]);   // (the second OP_RETURN output carries a value: burned coins are still printed)
         txs.push((tx, p.clone()));
     } }
+    // an OP_RETURN output with an EMPTY payload in front of qualifying ones in the same transaction (and in the next one)
+    { let mk = |p: &[u8]| [vec![0x6a], push(p, 0)].concat();
+      let tx = TxSpec::new(vec![TxIn::new([0xE0; 32], 0, vec![0x51])], vec![TxOut::new(0, vec![0x6a, 0x00]), TxOut::new(0, mk(b"second")), TxOut::new(0, vec![0x6a]), TxOut::new(0, mk(b"third"))]);
+      txs.push((tx, b"\x00multi".to_vec())); }
     // also scripts that are NOT op_return: must print nothing
     txs.push((TxSpec::new(vec![TxIn::new([0xEE; 32], 0, vec![])], vec![TxOut::new(5, vec![0x51, 0x6a, 0x02, 0x68, 0x69]), TxOut::new(5, vec![0x02, 0x6a, 0x6a])]), vec![]));
     let per_block = 9;
@@ -46,6 +50,8 @@ fn c16_opreturn_printed_lines() {
             for o in &t.outputs {
                 if o.script.first() != Some(&0x6a) || o.script.len() < 2 { continue; }
                 let p = match txs.iter().find(|x| x.0.txid() == t.txid()) { Some(x) => x.1.clone(), None => continue };
+                // (the multi-output transaction: the payload is the single push of each output itself)
+                let p = if p.starts_with(b"\x00multi") { if o.script.len() >= 2 && o.script[1] as usize == o.script.len() - 2 { o.script[2..].to_vec() } else { vec![] } } else { p };
                 let shown = if coin == "bitcoin" { String::from_utf8(p).unwrap_or_default() } else { String::from_utf8_lossy(&p).into_owned() };
                 if !shown.is_empty() { want.push(format!("height: {: <9} txid: {}    data: {}", h, id, shown)); }
             } } }
